@@ -313,7 +313,8 @@ def gen_case(seed, tier, index=0):
         variants.append({"hashseed": hs[v % len(hs)], "steps": steps, "slot": v})
     if tier == "thorough" and index % 8 == 0:
         # fidelity of the stub: the same commands on the real multiprocessing.Pool (never a source of VIOLATIONs)
-        steps = [{"argv": list(c), "cwd": ".", "real_pool": True} for c in cmds]
+        steps = [{"argv": [a for a in st0["argv"] if a != "--no-multiprocessing"], "cwd": ".", "real_pool": True}
+                 for st0 in variants[0]["steps"]]
         variants.append({"hashseed": hs[0], "steps": steps, "slot": nvar, "nondeterministic": True})
     return {"prop": PROP, "seed": seed, "world": world, "variants": variants}
 
